@@ -135,7 +135,7 @@ RampExact ==
 RateWithinLimits ==
   Good /\ res.paths[1] # "mid" => /\ s.ch[1].fs * 1000 <= res.c.maxI
                                  /\ (res.paths[1] # "init" \/ res.c.minI <= res.c.api => s.ch[1].fs * 1000 >= res.c.minI)
-                                 /\ (res.c.minI <= res.c.api => s.ch[1].fs * 1000 <= res.c.api)
+                                 /\ (res.c.minI <= res.c.api /\ res.c.desI <= res.c.api => s.ch[1].fs * 1000 <= res.c.api)   \* (the Opus layer never asks for more than Nyquist)
                                  /\ s.nInt = res.c.nInt
 \* after a rate change (or a reset) the first frame is coded without reference to the past
 FirstFrameIndependent ==
